@@ -248,7 +248,8 @@ func (w *c09rWorld) strategy(in c09rIn) configuration.ColocationStrategy {
 
 func c09rAnno(in c09rIn) string {
 	if in.Anno.CPU > 0 || in.Anno.Mem > 0 {
-		return fmt.Sprintf(`{"resources":{"cpu":"%dm","memory":"%d"}}`, in.Anno.CPU, in.Anno.Mem)
+		return fmt.Sprintf(`{"resources":{"cpu":"%dm","memory":"%d"}%s}`, in.Anno.CPU, in.Anno.Mem,
+			[]string{"", `,"applyPolicy":"Default"`, `,"applyPolicy":"ReservedCPUsOnly"`}[(in.Anno.CPU+in.Anno.Mem)%3]) // how it applies to scheduling; reserved either way
 	}
 	return ""
 }
@@ -333,7 +334,7 @@ func (w *c09rWorld) syncPods(ctx context.Context, in c09rIn) error {
 	for k, p := range in.Pods {
 		pod := &corev1.Pod{
 			ObjectMeta: metav1.ObjectMeta{
-				Name: fmt.Sprintf("p%d", k), Namespace: "ns",
+				Name: fmt.Sprintf("p%d", k), Namespace: "ns", UID: types.UID(fmt.Sprintf("uid-p%d", k)),
 				Labels:      map[string]string{extension.LabelPodQoS: p.Qos},
 				Annotations: map[string]string{},
 			},
